@@ -287,6 +287,26 @@ def invert_rule(ctx, r):
                 r.bad("slow|xor", "sink_matched in the slow path is not guarded by (matched != invert_match)", fn=f)
         else:
             r.bad("slow|xor", "the XOR with invert_match does not involve the matcher's verdict (`%s`)" % show(other), fn=f)
+    # before any of that: the driver skips the search altogether when "no match is possible". With no pattern at all no line
+    # matches — so under -v every line is to be reported, and the shortcut must not apply
+    mp = facts.fn("rg::flags::hiargs::HiArgs::matches_possible")
+    ebm = ExprBuilder(mp)
+    HI_ = "rg::flags::hiargs::HiArgs"
+    inv_sw = cond_switches(mp, lambda y: is_field(strip(y), HI_, "invert_match"), ebm)
+    rows = {}
+    for empty, invert in ((1, 0), (1, 1), (0, 0), (0, 1)):
+        removed = {(x[2] if invert else x[1]) for x in inv_sw}
+        sx = Sccp(mp, call_model=lambda c, a, empty=empty: I(empty) if c.path.endswith("Vec::is_empty") else None,
+                  removed_edges=removed).run([(0, {})])
+        rows[(empty, invert)] = {x for v in sx.ret_values.values() for x in value_set(v)}
+    if rows[(1, 0)] == {I(0)} and rows[(1, 1)] != {I(0)} and rows[(0, 0)] != {I(0)} and rows[(0, 1)] != {I(0)}:
+        r.ok("possible|empty", "matches_possible: no patterns ⇒ false only when the match is not inverted", fn=mp)
+    elif not mp.calls() or not any(c.path.endswith("Vec::is_empty") for c in mp.calls()):
+        r.ok("possible|empty", "matches_possible does not look at the pattern list", fn=mp, nontrivial=False)
+    else:
+        r.bad("possible|empty", "matches_possible answers false for an empty pattern list whatever invert_match says (%s): `rg -v -f "
+              "/dev/null file` prints nothing, although with no pattern no line matches and the complement is every line"
+              % {k: sorted(map(str, v)) for k, v in rows.items()}, fn=mp, construct="matches_possible")
     g = facts.fn(CORE + "::match_by_line_fast")
     ebg = ExprBuilder(g)
     inv = g.calls_to(CORE + "::match_by_line_fast_invert")
@@ -642,7 +662,7 @@ def run(ctx):
         verify_rule(ctx, r)
     with ctx.rule("C01.FASTGATE", "fast-path admission guards and fast→slow dispatch", floor=7, kind="GUARD/A3") as r:
         fastgate_rule(ctx, r)
-    with ctx.rule("C01.INVERT", "success = matched XOR invert_match", floor=2, kind="TRUTH/GUARD") as r:
+    with ctx.rule("C01.INVERT", "success = matched XOR invert_match", floor=3, kind="TRUTH/GUARD") as r:
         invert_rule(ctx, r)
     with ctx.rule("C01.WIRE", "CLI → matcher builder / searcher builder wiring tables", floor=24, kind="WIRE") as r:
         wire_rule(ctx, r)
